@@ -35,6 +35,7 @@ var commands = map[string]func(args []string){}
 func init() {
 	streams["sched"] = &stream{gen: genSched, run: runSched}
 	commands["stress"] = stressMain
+	commands["roprobe"] = roProbeMain
 	if ms, err := strconv.Atoi(os.Getenv("VERIF_WATCHDOG_MS")); err == nil && ms > 0 {
 		watchdog = time.Duration(ms) * time.Millisecond
 	}
@@ -378,6 +379,74 @@ func genSched(r *rand.Rand, id string, tier string) string {
 }
 
 // ---------------------------------------------------------------------------
+// roprobe (C09): once SetReadOnly(true) has RETURNED, the instance does not change any more - also when the call was made
+// while another goroutine's Push was in the middle of its critical section (inside its PushPolicy, holding the mutex): on a
+// mutex-enabled stack the switch waits its turn like any other writer.
+func roProbeMain(args []string) {
+	fs := flag.NewFlagSet("roprobe", flag.ExitOnError)
+	rounds := fs.Int("rounds", 20, "")
+	fs.Parse(args)
+	stackage.VerifHook = nil
+	bad := 0
+	for round := 0; round < *rounds; round++ {
+		s := newStack([]int{1, 2, 3, 4, 6}[round%5], 0)
+		s.SetMutex()
+		if round%2 == 1 {
+			s.SetFIFO(true)
+		}
+		s.Push("seed")
+		gate, entered := make(chan struct{}), make(chan struct{})
+		var once sync.Once
+		s.SetPushPolicy(func(x ...any) error {
+			once.Do(func() { close(entered) })
+			<-gate
+			return nil
+		})
+		pushed, switched := make(chan struct{}), make(chan struct{})
+		go func() { defer close(pushed); defer func() { recover() }(); s.Push(round) }()
+		select {
+		case <-entered:
+		case <-time.After(5 * time.Second):
+			fmt.Printf("ROPROBE-FAIL round=%d the PushPolicy was never consulted\n", round)
+			bad++
+			close(gate)
+			continue
+		}
+		lenAtReturn := -1
+		go func() {
+			defer close(switched)
+			defer func() { recover() }()
+			s.SetReadOnly(true)
+			lenAtReturn = int(stackage.VerifDump(s).RawLen)
+		}()
+		select {
+		case <-switched: // returned while the Push is still inside its critical section
+		case <-time.After(30 * time.Millisecond): // waiting for the lock, as a writer should
+		}
+		close(gate)
+		for _, c := range []chan struct{}{pushed, switched} {
+			select {
+			case <-c:
+			case <-time.After(5 * time.Second):
+				fmt.Printf("ROPROBE-FAIL round=%d DEADLOCK: Push / SetReadOnly did not return\n", round)
+				bad++
+			}
+		}
+		if final := int(stackage.VerifDump(s).RawLen); lenAtReturn >= 0 && final != lenAtReturn {
+			fmt.Printf("ROPROBE-FAIL round=%d SetReadOnly(true) returned with %d slots, the read-only instance then grew to %d\n", round, lenAtReturn, final)
+			bad++
+		}
+		if !s.IsReadOnly() {
+			fmt.Printf("ROPROBE-FAIL round=%d not read-only after SetReadOnly(true)\n", round)
+			bad++
+		}
+	}
+	fmt.Printf("ROPROBE-DONE rounds=%d failures=%d\n", *rounds, bad)
+	if bad > 0 {
+		os.Exit(1)
+	}
+}
+
 // free-running stress: 16 goroutines, one mutex-enabled stack, invariants afterwards
 
 func stressMain(args []string) {
